@@ -126,9 +126,9 @@ def audit_axioms(module, names, tag):
     r = run(["lake", "env", "lean", src], cwd=LEAN)
     res = {n: None for n in names}
     text = r.stdout.replace("\n  ", " ")
-    for m in re.finditer(r"'([^']+)' depends on axioms: \[([^\]]*)\]", text):
+    for m in re.finditer(r"'([^\s]+)' depends on axioms: \[([^\]]*)\]", text):
         res[m.group(1)] = [a.strip() for a in m.group(2).replace("\n", " ").split(",") if a.strip()]
-    for m in re.finditer(r"'([^']+)' does not depend on any axioms", text):
+    for m in re.finditer(r"'([^\s]+)' does not depend on any axioms", text):
         res[m.group(1)] = []
     return res, r.stdout
 
